@@ -271,6 +271,13 @@ def mutate(
     else:
         # No exception was caught, so write the output file(s)
 
+        # Serialize & encode before opening (and thereby truncating) any file,
+        # so that a failure here leaves everything on disk untouched
+        output_data = str(simfile)
+        errors = kwargs.get("errors") or "strict"
+        backup_data.encode(encoding, errors)
+        output_data.encode(encoding, errors)
+
         # Write backup file if requested
         if backup_filename:
             with filesystem.open(
@@ -282,4 +289,4 @@ def mutate(
         with filesystem.open(
             output_filename or input_filename, "w", encoding=encoding, **kwargs
         ) as writer:
-            simfile.serialize(cast(TextIO, writer))
+            writer.write(output_data)
